@@ -21,7 +21,7 @@ LEVEL = "proof"
 SCENARIOS = ["divide", "adhering", "divide", "overlap", "mixed", "single", "divide", "adhering", "overlap", "divide"]
 
 
-def gen_case(rng, tag, scen=None):
+def gen_case(rng, tag, scen=None, origin_node=False):
     lvl = rng.choice([1, 2, 2])
     n0, f = tissue.icosphere(lvl)
     # ellipsoids with three distinct semi-axes: the division axis (longest axis of the node cloud) is then unique and
@@ -69,12 +69,25 @@ def gen_case(rng, tag, scen=None):
     picked = rng.sample(choices, 3)
     if scen in ("divide", "mixed") and not any(k.startswith("cells_") for k, _ in picked):
         picked[0] = choices[rng.choice([4, 5])]          # a dividing tissue is always also run several cell sizes away
+    if scen in ("overlap", "mixed") and nc >= 2 and (origin_node or rng.random() < 0.75):
+        # a node of the contact zone placed exactly on the origin (and the twin far away): whatever enters a contact decision as an
+        # absolute coordinate instead of a difference is invisible when both placements are far from the origin
+        c1c = [sum(q[k] for q in cells[1][1]) / len(cells[1][1]) for k in range(3)]; c0c = [sum(q[k] for q in cells[0][1]) / len(cells[0][1]) for k in range(3)]
+        near0 = sorted(cells[0][1], key=lambda q: sum((q[k] - c1c[k]) ** 2 for k in range(3)))[:6]
+        near1 = sorted(cells[1][1], key=lambda q: sum((q[k] - c0c[k]) ** 2 for k in range(3)))[:6]
+        q0 = rng.choice(near0 + near1)
+        ts[0] = tuple(-x for x in q0); kinds[0] = "reference(contact node on the origin)"
+        picked = [("cells_10_from_origin_node", tuple(-q0[k] + rng.uniform(-10, 10) * R for k in range(3))), ("dyadic_from_origin_node", tuple(-q0[k] + rng.choice([-1, 1]) * 2.0 ** -16 for k in range(3))),
+                  ("cells_100_from_origin_node", tuple(-q0[k] + rng.choice([-1, 1]) * rng.uniform(30, 100) * R for k in range(3)))]
+    if origin_node:
+        picked = picked[:1]
     for k, t in picked:
         ts.append(t); kinds.append(k)
     lines = []
     for t in ts:
         cs = [(i, [[q[k] + t[k] for k in range(3)] for q in n], f_) for i, n, f_ in cells]
         lines.append(tissue.fmt_tissue(p, cts, cs) + " RUN %d 1 %d 1 %s 0" % (niter, seed, tag))
+    ts = [tuple(t[k] - ts[0][k] for k in range(3)) for t in ts]        # relative to the reference placement
     return dict(lines=lines, ts=ts, kinds=kinds, scen=scen, niter=niter, nc=nc, level=lvl)
 
 
@@ -152,6 +165,9 @@ def run(ck):
     impl = vlib.build_driver("solver", wrap_clock=True)
     rng = random.Random(ck.seed * 3571 + 14)
     cases = [gen_case(rng, "c14_%d" % i, SCENARIOS[i % len(SCENARIOS)]) for i in range(ncase)]
+    # interpenetrating cells with a node of the contact zone exactly on the origin, each against one twin some cell sizes away (own stream)
+    rng_o = random.Random(ck.seed * 3571 + 15)
+    cases += [gen_case(rng_o, "c14_o%d" % i, "overlap", origin_node=True) for i in range(10 if ck.tier == "quick" else 60)]
     jobs = [(ci, k, l) for ci, c in enumerate(cases) for k, l in enumerate(c["lines"])]
     from concurrent.futures import ThreadPoolExecutor
     def one(j):
